@@ -346,3 +346,97 @@ func join(s []string) string {
 }
 
 var _ = token.ADD
+
+// ATOMIC-ONLY (C11): a field that is accessed with sync/atomic anywhere is accessed with sync/atomic everywhere.
+func ruleAtomicOnly(w *World, r *Report) {
+	r.Rule("ATOMIC-ONLY", "a struct field that some code updates through sync/atomic is never read or written by a plain load / store (nor overwritten as part of its enclosing struct) outside a constructor: mixed access is a data race between requests to different locations (the service statistics are shared by all of them)", 5)
+	atomicFields := map[string]bool{}
+	for _, fn := range w.Funcs {
+		if isTestFile(w, fn) {
+			continue
+		}
+		allInstrs(fn, func(in ssa.Instruction) {
+			c := callOf(in)
+			if c == nil {
+				return
+			}
+			f := c.StaticCallee()
+			if f == nil || f.Pkg == nil || f.Pkg.Pkg.Path() != "sync/atomic" || len(c.Args) == 0 {
+				return
+			}
+			if n, fld, _, ok := fieldOf(c.Args[0]); ok {
+				atomicFields[typeKey(n)+"."+fld] = true
+			}
+		})
+	}
+	// owners whose struct contains atomic fields
+	owners := map[string]bool{}
+	for k := range atomicFields {
+		for i := len(k) - 1; i >= 0; i-- {
+			if k[i] == '.' {
+				owners[k[:i]] = true
+				break
+			}
+		}
+	}
+	counts := map[string]int{}
+	for _, fn := range w.Funcs {
+		if isTestFile(w, fn) {
+			continue
+		}
+		allInstrs(fn, func(in ssa.Instruction) {
+			var key, detail string
+			switch x := in.(type) {
+			case *ssa.UnOp:
+				if x.Op != token.MUL {
+					return
+				}
+				if n, f, base, ok := fieldOf(x.X); ok && atomicFields[typeKey(n)+"."+f] && !isFreshAt(base, in) {
+					key, detail = typeKey(n)+"."+f+" plain-read in="+fname(fn), "plain read of a field that is updated with sync/atomic"
+				}
+				// load of a whole struct that contains atomic fields (copy)
+				if n := structNamed(x.Type()); n != nil && owners[typeKey(n)] {
+					if _, isAlloc := addrRoot(x.X).(*ssa.Alloc); !isAlloc {
+						key, detail = typeKey(n)+" struct-copy in="+fname(fn), "plain copy of a struct whose fields are updated with sync/atomic"
+					}
+				}
+			case *ssa.Store:
+				if n, f, base, ok := fieldOf(x.Addr); ok && atomicFields[typeKey(n)+"."+f] && !isFreshAt(base, in) {
+					key, detail = typeKey(n)+"."+f+" plain-write in="+fname(fn), "plain write of a field that is updated with sync/atomic"
+				}
+				if n := structNamed(x.Val.Type()); n != nil && owners[typeKey(n)] {
+					if _, isAlloc := addrRoot(x.Addr).(*ssa.Alloc); !isAlloc {
+						key, detail = typeKey(n)+" struct-overwrite in="+fname(fn), "a struct whose fields are updated with sync/atomic is overwritten as a whole"
+					}
+				}
+			}
+			if key == "" {
+				return
+			}
+			counts[key]++
+			if counts[key] > 1 {
+				return
+			}
+			r.violation("ATOMIC-ONLY", key, w.PosOf(in), detail)
+		})
+	}
+	var fs []string
+	for k := range atomicFields {
+		fs = append(fs, k)
+	}
+	for _, k := range fs {
+		r.ok("ATOMIC-ONLY", "field="+k+" atomic sites", "", "accessed through sync/atomic")
+	}
+}
+
+// structNamed: t is itself a named struct type (not a pointer to one).
+func structNamed(t types.Type) *types.Named {
+	n, ok := types.Unalias(t).(*types.Named)
+	if !ok {
+		return nil
+	}
+	if _, isStruct := n.Underlying().(*types.Struct); !isStruct {
+		return nil
+	}
+	return n
+}
